@@ -1,4 +1,5 @@
 import Blue.Proofs.SetsumGrp
+import Blue.Proofs.RecoverLedger
 import Blue.Model.VerifyOne
 import Blue.Driver.C08
 import Blue.Driver.Util
@@ -6,7 +7,10 @@ import Blue.Driver.Util
     a manifest fragment, computed in the canonical-setsum group the theorems are about.
 
     `ledger verify <prev-digest> <rec>*` with `rec = I,O,D,rm1+rm2+…|-,ad1+…|-`   (hex digests)
-    `ledger total <digest>*`  → hex digest of the sum -/
+    `ledger total <digest>*`  → hex digest of the sum
+    `ledger recover <O> <listed1+…|-> <log-sst-digest>*|-`  → the records `KeyValueStore::recover`
+      writes for these logs (ascending), the manifest listing `listed` and recording output `O`
+      (`Blue.Books.recoverRecs`): `rec*` as above, `-` for none -/
 namespace Blue.Driver.C04
 open Blue.Driver Blue.Setsum Blue.Books
 
@@ -28,6 +32,11 @@ def parseRec (s : String) : Option (Rec CState CState) :=
     | _, _, _, _, _ => none
   | _ => none
 
+def renderStates (l : List CState) : String := if l.isEmpty then "-" else "+".intercalate (l.map hexC)
+
+def renderRec (r : Rec CState CState) : String :=
+  s!"{hexC r.I},{hexC r.O},{hexC r.D},{renderStates r.rm},{renderStates r.ad}"
+
 /-- which of the verifier's three checks fails first (for a readable disagreement) -/
 def firstFailure (prev : CState) : List (Rec CState CState) → Nat → String
   | [], _ => "accept"
@@ -48,6 +57,12 @@ def handle : List String → String
         let why := firstFailure p rs 0
         if why = "accept" then "model-error" else why
     | _, _ => "bad-op"
+  | "recover" :: o :: listed :: logs =>
+    match cstate o, cstates listed, (if logs = ["-"] then some [] else allSome (logs.map cstate)) with
+    | some o, some ls, some lg =>
+      let recs := recoverRecs setsumGrp id ls o lg
+      if recs.isEmpty then "-" else " ".intercalate (recs.map renderRec)
+    | _, _, _ => "bad-op"
   | "total" :: ds =>
     match allSome (ds.map cstate) with
     | some cs => hexC (total setsumGrp id cs)
